@@ -57,6 +57,9 @@ type cmdScn struct {
 	// SlowReplyMs: the user's OnWriteExecutionEvent callback takes this much virtual time for replies to location
 	// reports (the connection's writer is busy meanwhile and its queues fill up)
 	SlowReplyMs int `json:"slow_reply_ms,omitempty"`
+	// HoldUntilOnline: schedules are explored only from the moment the (first) terminal is online; its preamble
+	// (tens of thousands of heartbeats that move the platform serial to the wrap) runs under the default schedule
+	HoldUntilOnline bool `json:"hold_until_online,omitempty"`
 }
 
 type cmdRun struct {
@@ -285,6 +288,9 @@ func (r *cmdRun) runTerminal(ts *termState) {
 	}
 	p.Expect(nReplies) // reply to the heartbeat(s): the terminal is online now
 	ts.setJoined()
+	if r.scn.HoldUntilOnline {
+		vs.BranchFromHere()
+	}
 	switch sp.CloseAt {
 	case "after-join":
 		closeNow(false)
@@ -629,7 +635,10 @@ func cmdReplay(raw json.RawMessage) string {
 	if err := json.Unmarshal(raw, &c); err != nil {
 		return "bad case: " + err.Error()
 	}
-	x := &vs.Explorer{Name: c.Scn.Name, Make: cmdMake(c.Scn), Check: cmdCheck}
+	x := &vs.Explorer{Name: c.Scn.Name, Make: cmdMake(c.Scn), Check: cmdCheck, HoldBranching: c.Scn.HoldUntilOnline}
+	if c.Scn.HoldUntilOnline {
+		x.Horizon = 5000000
+	}
 	res, user, _ := x.RunOnce(c.Choices, nil, true)
 	vl := cmdCheck(res, user)
 	if len(vl) == 0 {
@@ -659,8 +668,11 @@ func exploreCmd(ctx *vc.Ctx, rep *vc.Report, scn cmdScn, bound int) {
 		rep.Outcome("callers:" + callerOutcomes(user.(*cmdRun)))
 		return v
 	}
-	x := &vs.Explorer{Name: scn.Name, Bound: bound, Make: cmdMake(scn), Check: check, KeepKeys: true,
-		Deadline: ctx.Deadline, Shard: ctx.Worker, NShards: ctx.NWorkers}
+	x := &vs.Explorer{Name: scn.Name, Bound: bound, Make: cmdMake(scn), Check: check, KeepKeys: !scn.HoldUntilOnline,
+		Deadline: ctx.Deadline, Shard: ctx.Worker, NShards: ctx.NWorkers, HoldBranching: scn.HoldUntilOnline}
+	if scn.HoldUntilOnline {
+		x.Horizon = 5000000
+	}
 	if bound >= 2 {
 		x.ShardLvl = 2
 	}
